@@ -5,7 +5,7 @@ Every function here is an *assumed contract* on third-party code (listed in evid
 import ast
 from fractions import Fraction
 import z3
-from .vals import (SV, Opt, Inf, Vec, Mat, Obj, SList, Forall, Func, Builtin, ClassRef, ExcClass, ModuleRef,
+from .vals import (SV, Opt, Inf, Vec, Mat, Obj, SList, Forall, Exists, Func, Builtin, ClassRef, ExcClass, ModuleRef,
                    Unsupported, StrS, fresh, fresh_fun, to_frac, is_num)
 from .ops import term, boolterm, mk, is_scalar, is_real, UF
 
@@ -219,6 +219,37 @@ def getitem(it, base, idx):
                     raise Unsupported('negative / out-of-range symbolic array index')
             return base.at(idx.t)
         if isinstance(idx, Vec):
+            # base[idx] is cached per (base, idx) object pair: the same selection is the same array object, so that
+            # argsort()/mask embeddings derived from it are shared between code and contract
+            cache = idx.__dict__.setdefault('_sel_cache', {})
+            if id(base) in cache and cache[id(base)][0] is base:
+                return cache[id(base)][1]
+            r = _fancy(it, base, idx)
+            cache[id(base)] = (base, r)
+            return r
+        if isinstance(idx, (list, tuple)) and not isinstance(idx, tuple):
+            return getitem(it, base, as_vec(it, idx))
+        if isinstance(idx, tuple) and len(idx) == 2 and idx[1] is None:
+            # x[:, None]  -> column
+            raise Unsupported('newaxis indexing')
+        raise Unsupported(f'array index {type(idx).__name__}')
+    if isinstance(base, Mat):
+        return _mat_getitem(it, base, idx)
+    if isinstance(base, SList):
+        return slist_getitem(it, base, idx)
+    if isinstance(base, Obj):
+        r = obj_getitem(it, base, idx)
+        if r is not NotImplemented:
+            return r
+    if hasattr(base, 'getitem'):
+        return base.getitem(it, idx)
+    raise Unsupported(f'subscript on {type(base).__name__}')
+
+
+def _fancy(it, base, idx):
+    p = it.p
+    if True:
+        if True:
             k = vec_kind(idx)
             if k == 'bool':
                 p.common_len(idx.n, base.n)
@@ -236,13 +267,11 @@ def getitem(it, base, idx):
                     return base.at(t)
                 return Vec(idx.n, sel2)
             raise Unsupported(f'fancy index of kind {k}')
-        if isinstance(idx, (list, tuple)) and not isinstance(idx, tuple):
-            return getitem(it, base, as_vec(it, idx))
-        if isinstance(idx, tuple) and len(idx) == 2 and idx[1] is None:
-            # x[:, None]  -> column
-            raise Unsupported('newaxis indexing')
-        raise Unsupported(f'array index {type(idx).__name__}')
-    if isinstance(base, Mat):
+
+
+def _mat_getitem(it, base, idx):
+    p = it.p
+    if True:
         if isinstance(idx, tuple) and len(idx) == 2:
             i, j = idx
             if is_idx(i) and is_idx(j):
@@ -257,15 +286,6 @@ def getitem(it, base, idx):
             ii = idxterm(p, idx, base.n)
             return Vec(base.m, lambda b: base.at(ii, b))
         raise Unsupported('matrix index form')
-    if isinstance(base, SList):
-        return slist_getitem(it, base, idx)
-    if isinstance(base, Obj):
-        r = obj_getitem(it, base, idx)
-        if r is not NotImplemented:
-            return r
-    if hasattr(base, 'getitem'):
-        return base.getitem(it, idx)
-    raise Unsupported(f'subscript on {type(base).__name__}')
 
 
 def is_idx(x):
@@ -940,6 +960,18 @@ def np_array(it, a, k):
 
 def np_append(it, a, k):
     x, y = as_vec(it, a[0]), as_vec(it, a[1])
+    if isinstance(x, Vec) and isinstance(y, Vec):
+        cache = x.__dict__.setdefault('_append_cache', {})
+        if id(y) in cache and cache[id(y)][0] is y:
+            return cache[id(y)][1]
+        r = _np_append(it, [x, y], k)
+        cache[id(y)] = (y, r)
+        return r
+    return _np_append(it, a, k)
+
+
+def _np_append(it, a, k):
+    x, y = as_vec(it, a[0]), as_vec(it, a[1])
     if not isinstance(x, Vec):
         x = Vec(1, lambda i: a[0])
     if not isinstance(y, Vec):
@@ -1461,8 +1493,18 @@ def s_forall2(it, a, k):
     return Forall((0, 0), (h1, h2), body, nvars=2)
 
 
+def s_exists(it, a, k):
+    f = a[0]
+    lo, hi = (0, a[1]) if len(a) == 2 else (a[1], a[2])
+    return Exists(lo, hi, lambda i: it.sbool(it.call(f, [i], {})))
+
+
 def s_implies(it, a, k):
     x, y = a
+    if x is False:
+        return True
+    if isinstance(y, Exists):
+        return Exists(y.lo, y.hi, y.body, it.ops.land(it.sbool(y.guard), it.sbool(x)))
     if isinstance(y, Forall):
         inner = y
         return Forall(inner.lo, inner.hi, lambda *ii: s_implies(it, [x, inner.body(*ii)], {}), nvars=inner.nvars)
@@ -1527,7 +1569,7 @@ def s_at(it, a, k):
 
 SPEC_BUILTINS = {
     'at': s_at,
-    'forall': s_forall, 'forall2': s_forall2, 'implies': s_implies, 'ite': s_ite, 'is_none': s_is_none,
+    'forall': s_forall, 'exists': s_exists, 'forall2': s_forall2, 'implies': s_implies, 'ite': s_ite, 'is_none': s_is_none,
     'spec_db2lin': s_db2lin, 'spec_lin2db': s_lin2db, 'iff': s_iff, 'mask_index': s_mask_index,
     'sort_perm': s_sort_perm,
 }
